@@ -125,6 +125,14 @@ def gen_case(rng, cols=None, rows=None, force_alias=False, alias_fmt='x{}'):
                 else:
                     group_items.append(t['text'])
         group_items += [k.text for k in hid_keys]
+        if group_items and rng.random() < 0.25:
+            # the same key named twice (possibly in another reference form) must not change anything
+            for i, t in enumerate(targets):
+                if t['kind'] == 'key' and rng.random() < 0.6:
+                    group_items.append(rng.choice([str(i + 1), t['text'], t['alias'] or t['text']]))
+                    break
+            else:
+                group_items.append(rng.choice(group_items))
         rng.shuffle(group_items)
         if not group_items:
             implicit = True
